@@ -582,9 +582,7 @@ pub fn run_idt13(out: &mut Out, seed: u64, n: u64) {
     // (movaps) from the interrupt frame of `extern "x86-interrupt"` functions whose alignment
     // assumption contradicts the one it uses for saving the xmm registers, so an optimised stub
     // faults on a hardware-format frame regardless of what the crate does.
-    if !cfg!(debug_assertions) {
-        return;
-    }
+    let deliver_stubs = cfg!(debug_assertions);
     let mut idt: Box<Idt> = Box::new(Idt::new());
     install_all(&mut idt);
     let gates = raw(&idt);
@@ -592,6 +590,9 @@ pub fn run_idt13(out: &mut Out, seed: u64, n: u64) {
     let stacks: Vec<Vec<u8>> = (0..3).map(|_| vec![0u8; 1 << 16]).collect();
     let base_flags = user_flags() & !0x8d5; // clear CF PF AF ZF SF OF
     for v in 0..256usize {
+        if !deliver_stubs {
+            break;
+        }
         let (lo, hi) = (gates[2 * v], gates[2 * v + 1]);
         let present = (lo >> 47) & 1;
         // gate offset decoded from the raw bytes by the harness (the specification re-derives it)
